@@ -14,6 +14,7 @@ import (
 	"verif/harness/checks/c09"
 	"verif/harness/checks/c10"
 	"verif/harness/checks/c16"
+	"verif/harness/checks/c17"
 	"verif/harness/checks/c19"
 	"verif/harness/vf"
 )
@@ -30,5 +31,6 @@ var checks = map[string]func(*vf.Check){
 	"C09": c09.Run,
 	"C10": c10.Run,
 	"C16": c16.Run,
+	"C17": c17.Run,
 	"C19": c19.Run,
 }
